@@ -13,7 +13,7 @@ import (
 func init() {
 	register("C18", &ruleSet{
 		run:    runC18,
-		floors: map[string]int{"O1": 6, "O2": 3, "O3": 4, "O4": 1, "O5": 2},
+		floors: map[string]int{"O1": 6, "O2": 3, "O3": 4, "O4": 1, "O5": 2, "O6": 2},
 		explain: "Decides the structural clauses of the measurement primitives (all numeric clauses - mean during warm-up, hull bounds, variance >= 0, percentile accuracy - are " +
 			"not applicable to a static argument): (O1) Reset is complete: every field that Add/Update can write, followed through owned sub-measurements, is re-initialised by " +
 			"Reset to the value the constructor gives it (a zero constant, the immutable 'initial' field the constructor set from the same argument, or the sub-measurement's own " +
@@ -33,6 +33,7 @@ func runC18(p *Prog, l *Ledger) {
 	l.Rule("O3", "changed-flag polarity: whenever the stored value can differ the flag is true or an old != new comparison; never old == new")
 	l.Rule("O4", "latest value: SingleMeasurement.Add stores exactly its argument")
 	l.Rule("O5", "every sample is folded in: each Add path of an averaging measurement stores a value computed from the sample; a warm-up path also counts it (+1) and adds it to the running sum exactly once")
+	l.Rule("O6", "Update is atomic: the value handed to the operation is read, and the result stored back, within one exclusive critical section - unless the result is merged through Add")
 	l.NotCovered = []string{"arithmetic mean during warm-up", "exponential average stays within the hull of the samples", "variance >= 0", "percentile accuracy", "flag of the composite types (SimpleMovingVariance, WindowlessMovingPercentile) whose stored value is not a single field"}
 
 	mi := p.coreIface("MeasurementInterface")
@@ -153,6 +154,19 @@ func runC18(p *Prog, l *Ledger) {
 				continue
 			}
 			v := strip(a.Val, true)
+			if zc, isC := v.(*ssa.Const); isC && zc.Value == nil {
+				// the zero value of an aggregate (m.warmup = warmupState{}): every part is zero; constructors must leave it zero
+				if _, isStruct := zc.Type().Underlying().(*types.Struct); isStruct {
+					for _, c := range ctors {
+						for _, al := range p.allocsOf(c, T) {
+							if len(storesInto(al, a.Field)) > 0 {
+								bad = append(bad, fmt.Sprintf("%s: Reset zeroes %s but %s initialises it", p.At(a.Instr), a.Field.Name, p.Key(c)))
+							}
+						}
+					}
+					continue
+				}
+			}
 			if f, isC := constFloat(v); isC {
 				if f != 0 {
 					bad = append(bad, fmt.Sprintf("%s: Reset stores the non-zero constant %g into %s", p.At(a.Instr), f, a.Field.Name))
@@ -490,6 +504,99 @@ func runC18(p *Prog, l *Ledger) {
 			return len(bad) < 3
 		})
 		l.Check(len(bad) == 0 && n > 0, "O5", p.Key(target)+"/fold", p.FuncPos(target), fmt.Sprintf("%d paths; every sample reaches the stored value", n), "an averaging measurement can silently skip a sample", bad...)
+	}
+
+	// ---- O6 Update is one critical section
+	for _, T := range types_ {
+		up := p.Method(T, "Update")
+		if up == nil || len(up.Params) < 2 {
+			continue
+		}
+		op := up.Params[1]
+		if _, isSig := op.Type().Underlying().(*types.Signature); !isSig {
+			continue
+		}
+		locks := p.Locksets()
+		recvAP := AccessPath(up.Params[0]).String()
+		var opCalls []*ssa.Call
+		allInstrs(up, func(ins ssa.Instruction) {
+			if call, ok := ins.(*ssa.Call); ok && call.Call.Value == ssa.Value(op) {
+				opCalls = append(opCalls, call)
+			}
+		})
+		if len(opCalls) == 0 {
+			// delegated to a helper (add / a locked core): the variant inlines new helpers; an existing one is its own site
+			continue
+		}
+		var bad []string
+		for _, oc := range opCalls {
+			// loads of T's fields feeding the operation's argument
+			var loads []ssa.Instruction
+			for _, a := range oc.Call.Args {
+				if fr, _, ok := loadedField(strip(a, true)); ok && types.Identical(fr.Type, T) {
+					loads = append(loads, strip(a, true).(ssa.Instruction))
+				}
+			}
+			// stores of T's fields fed by the operation's result
+			var stores []*ssa.Store
+			allInstrs(up, func(ins ssa.Instruction) {
+				if st, ok := ins.(*ssa.Store); ok {
+					if fa, ok := st.Addr.(*ssa.FieldAddr); ok {
+						if fr, _, _ := fieldOf(fa); fr.Type != nil && types.Identical(fr.Type, T) && valueDerivesFrom(st.Val, oc, nil, 8) {
+							stores = append(stores, st)
+						}
+					}
+				}
+			})
+			if len(stores) == 0 {
+				continue // the result is merged through Add (a minimum stays a minimum whatever interleaves)
+			}
+			exclAt := func(ins ssa.Instruction) bool {
+				for _, m := range mutexFields(T) {
+					if ex, ok := locks.Held(ins)[recvAP+"."+m]; ok && ex {
+						return true
+					}
+				}
+				return false
+			}
+			for _, ld := range loads {
+				if !exclAt(ld) {
+					bad = append(bad, fmt.Sprintf("%s: the value handed to the operation is read without the exclusive lock", p.At(ld)))
+				}
+			}
+			for _, st := range stores {
+				if !exclAt(st) {
+					bad = append(bad, fmt.Sprintf("%s: the operation's result is stored without the exclusive lock", p.At(st)))
+				}
+			}
+			// no release between the read and the store
+			EnumPaths(up, 20000, func(pa *Path) bool {
+				in := false
+				pa.Each(func(step int, ins ssa.Instruction) bool {
+					for _, ld := range loads {
+						if ins == ld {
+							in = true
+						}
+					}
+					for _, st := range stores {
+						if ins == ssa.Instruction(st) {
+							in = false
+						}
+					}
+					if in {
+						if call, ok := ins.(*ssa.Call); ok {
+							if o, _ := p.lockOpOf(p.CallOf(call)); o == opUnlock || o == opRUnlock {
+								bad = append(bad, fmt.Sprintf("%s: the lock is released between reading the value and storing the operation's result: an Add or Reset completed in between is overwritten", p.At(ins)))
+								return false
+							}
+						}
+					}
+					return true
+				})
+				return len(bad) < 3
+			})
+		}
+		l.Check(len(bad) == 0, "O6", p.Key(up), p.FuncPos(up), "the value is read, transformed and stored back within one exclusive critical section (or merged through Add)", "Update can overwrite a concurrent Add / Reset with a result computed from the old value", bad...)
 	}
 
 	// ---- O4
